@@ -9,6 +9,10 @@ import AfkakProofs.Producer.Progress
 import AfkakProofs.Producer.ReportedTrace
 import AfkakProofs.Producer.AfterStop
 import AfkakProofs.Producer.WireCompose
+import AfkakProofs.Producer.Compose2
+import AfkakProofs.Producer.Compose3
+import AfkakProofs.Producer.Compose4
+import AfkakProofs.Producer.Args
 /-!
 # C01 — Producer acknowledgements are truthful and fire exactly once
 Property theorems only.  Model: `Afkak/Producer.lean` (the Producer against the client interface);
@@ -190,6 +194,18 @@ theorem C01_payload_is_message_set (ext : Afkak.Wire.Ext) (body : Nat → List U
       .ok (p.msgs.map (WireCompose.wireMsg ext body magic)) :=
   WireCompose.createMessageSet_none ext body magic rs p hp
 
+
+/-- … and with gzip (`codec=CODEC_GZIP`): the message set of the payload is ONE wrapper message, built by
+    `create_gzip_message` from exactly that message list - the payload's `msgs`, key, value and order, as format-`magic`
+    messages (its value is the compressed encoding of that list; compression itself is an external, `ext.gzip`). -/
+theorem C01_payload_is_message_set_gzip (ext : Afkak.Wire.Ext) (body : Nat → List UInt8) (magic : Int) (rs : List Req)
+    (p : Payload) (hp : p.msgs = rs.flatMap (·.wire)) :
+    Afkak.Wire.createMessageSet ext (rs.map (WireCompose.sendArg body)) Afkak.Consts.codecGzip magic =
+      (match Afkak.Wire.createGzipMessage ext (p.msgs.map (WireCompose.wireMsg ext body magic)) magic with
+       | .error e => .error e
+       | .ok m => .ok [m]) :=
+  WireCompose.createMessageSet_gzip ext body magic rs p hp
+
 /-! Non-vacuity: a run in which Deferreds do fire (an acknowledged send, a cancelled one). -/
 def exCfg : Cfg := Cfg.ofArgs 1 3 (1/4) false 1 1 none false
 def exEvs : List Ev :=
@@ -213,6 +229,185 @@ example : unresolvedRun exCfg (run exCfg (St.init exCfg) exPre).1 exRun :=
   unresolvedRunB_sound _ _ _ (by decide +kernel)
 example : answerCount exCfg (run exCfg (St.init exCfg) exPre).1 exRun = 4 := by decide +kernel
 
+
+/-! ## Producer × KafkaClient: the first sentence of C01, end to end
+
+The product machine of `Afkak/ProducerCompose.lean`: the client's answer to a produce request is not a free input
+any more but what the client model's `send_produce_request` (`sendProduce`: the routing kernel `route` of
+`_send_broker_aware_request`, one request per leader, and its assembling tail) makes of the metadata cache it
+routes with and of what each broker request came to. -/
+section Composed
+open Afkak.ProducerCompose
+
+/-- The product machine IS the Producer machine on the computed events: a composed run from any state is the
+    Producer's run on `flatten` (each composed event replaced by the Producer event it amounts to).  Hence every
+    theorem about `run` - all of C01, C09, C19 - holds of every composed run. -/
+theorem C01_composed_is_producer_run (cfg : Cfg) (nm : Topic → String) (st : St) (ces : List CEv) :
+    runC cfg nm st ces = run cfg st (flatten cfg nm st ces) :=
+  runC_eq_run cfg nm st ces
+
+/-- SUCCESS ONLY IF THE LEADER ACKNOWLEDGED - composed, step level, ANY state (reachable or not) and any composed
+    event that meets `evOK` (the environment hypotheses as one decidable predicate: distinct topics have distinct
+    names; a broker answers only for partitions it was asked about).  If the step fires `ok resp` for send `s`:
+    the Producer was waiting on produce request `rid` (`sending rid b`); the event is the client's completion of
+    that request (or its answer to the cancel in `stop`) with cache `c` and broker outcomes `outs`; `resp`'s error
+    code is 0; `s` rides on the request's payload for `resp`'s topic/partition (`b.sidsOf`: the sends whose
+    messages, in order, ARE that payload - `C01_payload_integrity`); and (`LeaderAcked`) the client routed the
+    request's payloads with `c` into one request per leader, the request to some node `n` was ANSWERED (`ok rs`),
+    `rs` contains the answer for that topic/partition with that error code (0) and that offset, that request
+    carried that partition's payload, and `n` is the node id of the broker `c.topics_to_brokers` names as the
+    partition's leader. -/
+theorem C01_composed_success_only_if_leader_acked (cfg : Cfg) (nm : Topic → String) (st : St) (ce : CEv) (s : Sid)
+    (resp : Resp) (hok : evOK nm st ce = true) (h : Ob.fire s (.ok resp) ∈ (stepC cfg nm st ce).2) :
+    ∃ rid b c outs, st.phase = .sending rid b ∧
+      (ce = .clientDone rid c outs ∨ ∃ w m, ce = .stopC w c (some outs) m) ∧
+      resp.error = 0 ∧ resp.tp ∈ b.current ∧ s ∈ b.sidsOf resp.tp ∧ LeaderAcked nm c b.current outs resp :=
+  stepC_leaderAcked cfg nm st ce s resp hok h
+
+/-- … along runs: for EVERY composed event list that meets the environment hypotheses (`runOK`), at every
+    position, a success fired by that step is the leader's error-0 answer (as above, in the state the run has
+    reached). -/
+theorem C01_composed_success_only_if_leader_acked_run (cfg : Cfg) (nm : Topic → String) (pre : List CEv) (ce : CEv)
+    (post : List CEv) (hok : runOK cfg nm (St.init cfg) (pre ++ ce :: post) = true) (s : Sid) (resp : Resp)
+    (h : Ob.fire s (.ok resp) ∈ (stepC cfg nm (runC cfg nm (St.init cfg) pre).1 ce).2) :
+    ∃ rid b c outs, (runC cfg nm (St.init cfg) pre).1.phase = .sending rid b ∧
+      (ce = .clientDone rid c outs ∨ ∃ w m, ce = .stopC w c (some outs) m) ∧
+      resp.error = 0 ∧ resp.tp ∈ b.current ∧ s ∈ b.sidsOf resp.tp ∧ LeaderAcked nm c b.current outs resp :=
+  stepC_leaderAcked cfg nm _ ce s resp (runOK_at cfg nm _ pre ce post hok) h
+
+/-- … and the Producer-level monitors hold of every composed run (no hypothesis): a success is an error-0
+    response of the answer to the LAST produce request observed, whose payload for that topic/partition carries
+    the send (`successAcked`); that payload's messages are exactly the sends' messages - same keys, values, order
+    (`payloads`); no Deferred fires twice (`atMostOnce`).  Together with the theorem above: the Deferred of a send
+    succeeds only if a produce request containing exactly its messages was answered without error by the broker
+    the client's metadata named as leader of the chosen partition. -/
+theorem C01_composed_truthful (cfg : Cfg) (nm : Topic → String) (ces : List CEv) :
+    successAcked cfg (traceOf cfg (flatten cfg nm (St.init cfg) ces)) = true ∧
+    payloads cfg (traceOf cfg (flatten cfg nm (St.init cfg) ces)) = true ∧
+    atMostOnce cfg (traceOf cfg (flatten cfg nm (St.init cfg) ces)) = true :=
+  ⟨successAcked_model cfg _, payloads_model cfg _, atMostOnce_model cfg _⟩
+
+
+/-- "IN EVERY OTHER OUTCOME - LOST CONNECTION, TIMEOUT - … NEVER REPORTS SUCCESS", composed, step level, ANY state in
+    which the request in flight has one payload per topic/partition (`hnd`; what the Producer builds,
+    `C01_payload_integrity`): if the step fires `ok resp`, then NO broker request of the client's call that FAILED
+    (`fail k`: lost connection, timeout, cancel) carried the payload of `resp`'s topic/partition - a send whose
+    payload went out in a request that failed does not succeed in that step, whatever the other brokers answered. -/
+theorem C01_composed_failed_request_no_success (cfg : Cfg) (nm : Topic → String) (st : St) (ce : CEv) (s : Sid)
+    (resp : Resp) (hok : evOK nm st ce = true) (hnd : ∀ rid b, st.phase = .sending rid b → b.current.Nodup)
+    (h : Ob.fire s (.ok resp) ∈ (stepC cfg nm st ce).2) :
+    ∀ rid b c outs, st.phase = .sending rid b →
+      (ce = .clientDone rid c outs ∨ ∃ w m, ce = .stopC w c (some outs) m) →
+      ∀ gs, Afkak.ClientCache.route c (b.current.map (key nm)) none = .ok gs →
+      ∀ n idxs k, ((n, idxs), Afkak.ClientCache.BrokerResult.fail k) ∈ brokerRequests gs outs →
+        ∀ i ∈ idxs, b.current[i]? ≠ some resp.tp :=
+  stepC_failed_no_success cfg nm st ce s resp hok hnd h
+
+/-- FIRES EXACTLY ONCE, end to end.  The Producer-level theorem (`C01_fires_exactly_once_run`) assumes `Accounted`:
+    every result of the client accounts for every payload of its request.  Over the product machine that hypothesis
+    is DISCHARGED for the answers the client model computes: it follows from what the BROKERS do (`callAccounts`, a
+    decidable predicate on each composed call: one outcome per broker request, each broker that answers answers for
+    exactly the partitions it was asked, one payload per topic/partition, distinct topic names); raw events keep the
+    Producer-level condition (`AccountedC`).  Then, whenever no batch is in flight at the end of a composed run, every
+    accepted send has fired EXACTLY once - or is still queued, which is possible only while `stop()` has not begun. -/
+theorem C01_composed_fires_exactly_once_run (cfg : Cfg) (nm : Topic → String) (ces : List CEv)
+    (hacc : AccountedC cfg nm (St.init cfg) ces) (hidle : (runC cfg nm (St.init cfg) ces).1.phase = .idle) :
+    ∀ s, s < (runC cfg nm (St.init cfg) ces).1.nextSid →
+      ((runC cfg nm (St.init cfg) ces).1.stopping = false ∧ s ∈ queued (runC cfg nm (St.init cfg) ces).1) ∨
+      (firedSids (runC cfg nm (St.init cfg) ces).2).count s = 1 := by
+  rw [runC_eq_run] at hidle ⊢
+  exact run_fires_exactly_once_strict cfg _ (accountedC_accounted cfg nm _ ces hacc) hidle
+
+/-! Non-vacuity: two partitions of one topic led by two brokers, one batch of two sends; the request to broker 1
+fails (timeout), broker 2 acknowledges: the send on broker 2's partition succeeds, the other is retried. -/
+def cNm : Topic → String := fun t => if t = 0 then "t0" else "t1"
+def cB1 : Afkak.ClientCache.Broker := ⟨1, "kafka1", 9092⟩
+def cB2 : Afkak.ClientCache.Broker := ⟨2, "kafka2", 9092⟩
+def cCache : Afkak.ClientCache.Cache := { t2b := [(("t0", 0), some cB1), (("t0", 1), some cB2)] }
+def cCfg : Cfg := Cfg.ofArgs 1 3 (1/4) true 2 0 none false
+def cPre : List CEv := [.ev (.metaSet 0 0 (some [0, 1])), .ev (.send 0 0 none [some 3]), .ev (.send 1 0 none [some 2])]
+def cDone : CEv := .clientDone 0 cCache [.fail .tcancelled, .ok [⟨("t0", 1), 42, 0⟩]]
+example : runOK cCfg cNm (St.init cCfg) (cPre ++ [cDone]) = true := by decide +kernel
+example : (stepC cCfg cNm (runC cCfg cNm (St.init cCfg) cPre).1 cDone).2 =
+    [.fire 1 (.ok ⟨⟨0, 1⟩, 0, 42⟩), .setTimer 0 (1/4)] := by decide +kernel
+example : ∀ rid b, (runC cCfg cNm (St.init cCfg) cPre).1.phase = .sending rid b → b.current.Nodup := by
+  intro rid b h
+  have : (runC cCfg cNm (St.init cCfg) cPre).1.phase = .sending 0 ⟨[⟨⟨0, 0⟩, [0], [⟨none, some 3⟩]⟩, ⟨⟨0, 1⟩, [1], [⟨none, some 2⟩]⟩], [⟨0, 0⟩, ⟨0, 1⟩], [⟨0, 0⟩, ⟨0, 1⟩]⟩ := by
+    decide +kernel
+  rw [this] at h; injection h with _ h; subst h; decide
+/-- `callAccounts` holds of that call (broker 2 answered exactly the partition it was asked, broker 1's request failed) -/
+example : callAccounts cNm cCache [⟨0, 0⟩, ⟨0, 1⟩] [.fail .tcancelled, .ok [⟨("t0", 1), 42, 0⟩]] = true := by decide +kernel
+/-- … and not of a reply that omits a requested partition (both partitions led by broker 1, the answer has one) -/
+example : callAccounts cNm { t2b := [(("t0", 0), some cB1), (("t0", 1), some cB1)] } [⟨0, 0⟩, ⟨0, 1⟩]
+    [.ok [⟨("t0", 1), 42, 0⟩]] = false := by decide +kernel
+/-- the hypothesis `onlyAsked` is not idle: here broker 2 answers for partition 0 as well, which it was not asked -/
+example : evOK cNm (runC cCfg cNm (St.init cCfg) cPre).1
+    (.clientDone 0 cCache [.fail .tcancelled, .ok [⟨("t0", 1), 42, 0⟩, ⟨("t0", 0), 7, 0⟩]]) = false := by decide +kernel
+
+end Composed
+
+/-! ## `send_messages`: the arguments as Python hands them over (`Afkak/ProducerArgs.lean`)
+
+The `try:` block at the head of `send_messages` is inside the model: the arguments are arbitrary Python objects, the
+checks are made in the code's order, a refused call returns an already failed Deferred and touches nothing, an
+accepted one is the Producer model's `send` event. -/
+section Args
+open Afkak.ProducerArgs
+
+/-- WHAT IS ACCEPTED, exactly: `validate a = ok acc` iff the topic is a `str` of 1..249 characters (the bounds are
+    read from `_coerce_topic` on every run) naming `acc.topic`, the key is `None` or `bytes` (= `acc.key`), and `msgs`
+    is a non-empty sized object whose every element is `None` or `bytes` - `acc.msgs` being exactly those values in
+    that order. -/
+theorem C01_args_accepted_iff (a : Args) (acc : Accepted) :
+    validate a = .ok acc ↔
+      (∃ len, a.topic = .str len acc.topic ∧ Afkak.Consts.producerTopicMinLen ≤ len ∧ len ≤ Afkak.Consts.producerTopicMaxLen) ∧
+      ((a.key = .none ∧ acc.key = none) ∨ ∃ b, a.key = .bytes b ∧ acc.key = some b) ∧
+      ∃ ms, a.msgs = .sized ms ∧ ms ≠ [] ∧ ms.map PyMsg.toModel = acc.msgs.map some :=
+  validate_ok_iff a acc
+
+/-- IN EVERY OTHER CASE the call is refused with a TypeError or a ValueError (never anything else), it returns an
+    already failed Deferred (`refused k`: not one of `_outstanding`), and the Producer's state is UNCHANGED - nothing
+    queued, no counter moved, no send id used, nothing transmitted, in every state (also while stopping). -/
+theorem C01_args_refused_changes_nothing (cfg : Cfg) (st : St) (a : Args) (k : ErrKind) (h : validate a = .error k) :
+    stepA cfg st (.sendRaw a) = (st, [.refused k]) ∧ (k = typeError ∨ k = valueError) := by
+  refine ⟨?_, validate_error a k h⟩
+  simp [stepA, h]
+
+/-- An accepted call IS the model's `send` event with the next send id and the coerced arguments; the message count
+    it adds is `len(msgs)` and the byte count the sum of `len(m)` over the `bytes` elements - what `enqueue` adds
+    (`msgs.length`, `msgBytes msgs`; C19's accounting is about those). -/
+theorem C01_args_accepted_is_send (cfg : Cfg) (st : St) (a : Args) (acc : Accepted) (h : validate a = .ok acc) :
+    stepA cfg st (.sendRaw a) =
+      ((step cfg st (.send st.nextSid acc.topic acc.key acc.msgs)).1,
+       (step cfg st (.send st.nextSid acc.topic acc.key acc.msgs)).2.map .flat) ∧
+    ∀ ms, a.msgs = .sized ms → acc.msgs.length = ms.length ∧ msgBytes acc.msgs = pyBytes ms := by
+  refine ⟨by simp [stepA, h], ?_⟩
+  intro ms hms
+  obtain ⟨_, _, ms', hms', _, hmap⟩ := (validate_ok_iff a acc).mp h
+  rw [hms] at hms'; injection hms' with hms'; subst hms'
+  exact checkMsgs_counts ms acc.msgs ((checkMsgs_ok_iff ms acc.msgs).mpr hmap)
+
+/-- Runs with raw `send_messages` calls are Producer runs with the refused calls erased: same final state, same
+    observations (the `refused` markers apart).  Hence every trace theorem of C01/C09/C19 holds of them. -/
+theorem C01_args_run_is_producer_run (cfg : Cfg) (st : St) (evs : List EvA) :
+    (runA cfg st evs).1 = (run cfg st (erase cfg st evs)).1 ∧
+    flatObs (runA cfg st evs).2 = (run cfg st (erase cfg st evs)).2 :=
+  runA_erase cfg st evs
+
+/-! Non-vacuity: the precedence of the checks (a `str` key is reported even when `msgs` is empty; an empty tuple is a
+ValueError; a `str` among the messages a TypeError; a `bytes` OBJECT as `msgs` iterates to ints), and an accepted call. -/
+example : validate ⟨.str 2 0, .other, .falsy⟩ = .error typeError := by rfl
+example : validate ⟨.other, .other, .falsy⟩ = .error typeError := by rfl
+example : validate ⟨.str 0 0, .none, .sized [.bytes 1]⟩ = .error valueError := by rfl
+example : validate ⟨.str 250 0, .none, .sized [.bytes 1]⟩ = .error valueError := by rfl
+example : validate ⟨.str 2 0, .none, .falsy⟩ = .error valueError := by rfl
+example : validate ⟨.str 2 0, .none, .unsized⟩ = .error typeError := by rfl
+example : validate ⟨.str 2 0, .bytes [107], .sized [.bytes 3, .other]⟩ = .error typeError := by rfl
+example : validate ⟨.str 2 0, .none, .sized [.other, .other, .other]⟩ = .error typeError := by rfl
+example : validate ⟨.str 249 1, .bytes [107], .sized [.bytes 3, .none]⟩ = .ok ⟨1, some [107], [some 3, none]⟩ := by rfl
+
+end Args
+
 end Afkak.Props.C01
 
 /- OBLIGATIONS
@@ -230,7 +425,18 @@ C01_run_fires_nodup
 C01_acks0_succeeds
 C01_payload_integrity
 C01_payload_is_message_set
+C01_payload_is_message_set_gzip
 C01_batch_resolves_within
+C01_composed_is_producer_run
+C01_composed_success_only_if_leader_acked
+C01_composed_success_only_if_leader_acked_run
+C01_composed_truthful
+C01_composed_failed_request_no_success
+C01_composed_fires_exactly_once_run
+C01_args_accepted_iff
+C01_args_refused_changes_nothing
+C01_args_accepted_is_send
+C01_args_run_is_producer_run
 -/
 /- OPEN_STATEMENTS
 -/
